@@ -209,8 +209,11 @@ Definition ae_tail (e : env) (from : nid) (m : msg) (c : N) (s : S) : S :=
   | AESnap _ _ p =>
     let (s, done) := set_transmission p s in
     if done && load_dump_ok s then
-      let s := send_next_idx from None false true (load_dump e true s) in
-      ae_commit c (Some (last_idx (log (nd s)))) s
+      let s := load_dump e true s in
+      let v := applied (nd s) in
+      let s := send_next_idx from (Some (v + 1)) false true s in
+      ae_commit c (Some v) s
+    else if done then ae_commit c None (load_dump e true s)
     else ae_commit c None s
   | _ => s
   end.
@@ -243,7 +246,7 @@ Proof.
     destruct (assemble_entry _); [|frchain]. frchain.
   - destruct (set_transmission p s) as [s1 done] eqn:E.
     assert (fr false s s1) as H1 by (change s1 with (fst (s1, done)); rewrite <- E; fr0).
-    destruct (done && load_dump_ok s1); cbv zeta; (eapply fr_trans; [exact H1|]); frchain.
+    destruct (done && load_dump_ok s1); cbv zeta; [|destruct done]; (eapply fr_trans; [exact H1|]); frchain.
 Qed.
 
 Lemma frs_ae_head : forall e from t c s, frs s (ae_head e from t c s).
